@@ -21,14 +21,14 @@ func init() {
 }
 
 type c19case struct {
-	Spokfile   string   `json:"spokfile"`           // text; "" with NoSpokfile
-	Variant    string   `json:"variant"`            // valid | token-removed | duplicate-task | failing-exec | unknown-builtin | none | directory
-	Files      []string `json:"files"`              // other project files
-	Args       []string `json:"args"`               // command line
-	Nested     bool     `json:"nested"`             // cwd = proj/nested/dir
-	GitIgnore  bool     `json:"gitignore"`          // a .gitignore exists in cwd
-	InitHere   string   `json:"init_here"`          // for --init from a nested dir: "" | "file" | "dir" (a spokfile already exists in cwd)
-	SpokIsFile bool     `json:"dot_spok_is_a_file"` // a regular file named .spok sits where the cache directory would go
+	Spokfile   string   `json:"spokfile"`                  // text; "" with NoSpokfile
+	Variant    string   `json:"variant"`                   // valid | token-removed | duplicate-task | failing-exec | unknown-builtin | none | directory
+	Files      []string `json:"files"`                     // other project files
+	Args       []string `json:"args"`                      // command line
+	Nested     bool     `json:"nested"`                    // cwd = proj/nested/dir
+	GitIgnore  bool     `json:"gitignore"`                 // a .gitignore exists in cwd
+	InitHere   string   `json:"init_here"`                 // for --init from a nested dir: "" | "file" | "dir" (a spokfile already exists in cwd)
+	SpokIsFile bool     `json:"dot_spok_is_a_file"`        // a regular file named .spok sits where the cache directory would go
 	Linked     bool     `json:"linked_spokfile,omitempty"` // the project's spokfile is a symbolic link to ../common/spokfile
 }
 
